@@ -459,4 +459,84 @@ theorem linkTree_branch_nonneg (L : Link) (n : Nat) (hn : 2 ≤ n) (d : Nat → 
       · have := h4 hc; linarith
       · rw [htax _ (Nat.lt_of_not_le hc)]; linarith
 
+/-! ### clade sizes in every mode -/
+
+theorem lstep_leaves (L : Link) (n k : Nat) (st : KState ℚ) (hs : KStruct n k st) (h : KLeaves n k st) (hk : k + 2 ≤ n) :
+    KLeaves n (k + 1) (lstep L n st) := by
+  have hN : 2 ≤ st.act.size := by have := hs.asize; omega
+  obtain ⟨_, _, a3, a4⟩ := kfindMin_spec st.rows st.act hN
+  obtain ⟨L', hL1, hL2⟩ := kAct_spec st hN a3 a4
+  have hLsub : ∀ x ∈ L', x ∈ st.act.toList := fun x hx => hL2.subset (List.mem_append_left _ hx)
+  have hact : (lstep L n st).act.toList = L' ++ [st.rows.size] := hL1
+  set ls := leafSets n st.nodes.reverse with hlsdef
+  have hnodes : (lstep L n st).nodes.reverse = st.nodes.reverse ++
+      [(⟨kI st, kJ st, lbranch L n st (lH L st) (kI st), lbranch L n st (lH L st) (kJ st)⟩ : KNode ℚ)] := by
+    show ((⟨kI st, kJ st, _, _⟩ : KNode ℚ) :: st.nodes).reverse = _
+    rw [List.reverse_cons]
+  have hls' : leafSets n (lstep L n st).nodes.reverse = ls.push (ls.getD (kI st) [] ++ ls.getD (kJ st) []) := by
+    rw [hnodes, leafSets_snoc]
+  refine ⟨?_, ?_, ?_, ?_⟩
+  · rw [hls', Array.size_push, h.lsize]; omega
+  · show (st.size.push _).size = n + (k + 1)
+    rw [Array.size_push, h.ssize]; omega
+  · rw [hls', hact, List.flatMap_append]
+    have e1 : (L'.flatMap fun x => (ls.push (ls.getD (kI st) [] ++ ls.getD (kJ st) [])).getD x []) = L'.flatMap fun x => ls.getD x [] :=
+      flatMap_congr_mem L' _ _ (fun x hx => getD_push_lt _ _ _ (by rw [h.lsize]; exact hs.alt x (hLsub x hx)))
+    have e2 : ([st.rows.size].flatMap fun x => (ls.push (ls.getD (kI st) [] ++ ls.getD (kJ st) [])).getD x []) =
+        ls.getD (kI st) [] ++ ls.getD (kJ st) [] := by
+      simp only [List.flatMap_cons, List.flatMap_nil, List.append_nil]
+      rw [hs.rsize, ← h.lsize, getD_push_eq]
+    rw [e1, e2]
+    have e3 : (L'.flatMap fun x => ls.getD x []) ++ (ls.getD (kI st) [] ++ ls.getD (kJ st) []) =
+        (L' ++ [kI st, kJ st]).flatMap fun x => ls.getD x [] := by
+      simp [List.flatMap_append]
+    rw [e3]
+    exact (List.Perm.flatMap_right _ hL2).trans h.part
+  · intro c
+    show (st.size.push (st.size.getD (kI st) 0 + st.size.getD (kJ st) 0)).getD c 0 = _
+    rw [hls']
+    rcases Nat.lt_trichotomy c st.size.size with hc | hc | hc
+    · rw [getD_push_lt _ _ _ hc, getD_push_lt _ _ _ (by rw [h.lsize, ← h.ssize]; exact hc)]; exact h.nin c
+    · rw [hc, getD_push_eq, h.ssize, ← h.lsize, getD_push_eq, List.length_append, h.nin, h.nin]
+    · rw [getD_push_gt _ _ _ hc, getD_push_gt _ _ _ (by rw [h.lsize, ← h.ssize]; exact hc)]; rfl
+
+theorem lrun_leaves (L : Link) (n : Nat) (d : Nat → Nat → ℚ) (k : Nat) (hk : k + 1 ≤ n) :
+    KLeaves n k (lrun L n (kinitMx n d) k) := by
+  induction k with
+  | zero => exact kinitMx_leaves n d
+  | succ k ih => exact lstep_leaves L n k _ (lrun_struct L n d k (by omega)) (ih (by omega)) (by omega)
+
+/-- `nin[]` of the run is the clade size, and the root's clade is all n taxa, each once — in every mode -/
+theorem linkTree_cladesizes' (L : Link) (n : Nat) (hn : 2 ≤ n) (d : Nat → Nat → ℚ) :
+    (∀ c, (linkTree L n d).size.getD c 0 = (kclades n (linkTree L n d).nodes.reverse).getD c 0) ∧
+    ((leafSets n (linkTree L n d).nodes.reverse).getD (2 * n - 2) []).Perm (List.range n) ∧
+    (kclades n (linkTree L n d).nodes.reverse).getD (2 * n - 2) 0 = n := by
+  have hl := lrun_leaves L n d (n - 1) (by omega)
+  have hs := lrun_struct L n d (n - 1) (by omega)
+  have hc := (kclades_eq_leaves n (linkTree L n d).nodes.reverse).2
+  -- the single active cluster left is the root 2n-2
+  have hw := wellFormed_of_struct n hn _ hs
+  have hsz : (lrun L n (kinitMx n d) (n - 1)).act.toList.length = 1 := by
+    have := hs.asize
+    simp only [Array.length_toList]; omega
+  obtain ⟨x, hx⟩ := List.length_eq_one_iff.mp hsz
+  have hxr : x = 2 * n - 2 := by
+    have hp := hs.perm
+    rw [hx] at hp
+    have hmem : (2 * n - 2) ∈ childrenOf (lrun L n (kinitMx n d) (n - 1)).nodes.reverse ++ [x] := by
+      apply hp.symm.subset
+      rw [List.mem_range]; omega
+    rcases List.mem_append.mp hmem with hm | hm
+    · have := hw.children.subset hm
+      rw [List.mem_range] at this; omega
+    · exact (List.mem_singleton.mp hm).symm
+  have hroot : ((leafSets n (linkTree L n d).nodes.reverse).getD (2 * n - 2) []).Perm (List.range n) := by
+    have hp := hl.part
+    rw [hx, hxr] at hp
+    show ((leafSets n (lrun L n (kinitMx n d) (n - 1)).nodes.reverse).getD (2 * n - 2) []).Perm (List.range n)
+    simpa using hp
+  refine ⟨fun c => ?_, hroot, ?_⟩
+  · rw [hc c]; exact hl.nin c
+  · rw [hc, hroot.length_eq]; simp
+
 end EaselModel.Weights
